@@ -25,6 +25,9 @@ import (
 const (
 	maxArrayLen      = 1024 * 1024
 	maxBulkStringLen = 1024 * 1024 * 512
+	// maxArrayDepth limits the nesting of arrays, it's far more than any
+	// redis request or reply needs.
+	maxArrayDepth = 128
 )
 
 var (
@@ -38,6 +41,8 @@ var (
 	ErrBadArrayLen = errors.New("bad array len")
 	// ErrBadArrayLenTooLong too long array len
 	ErrBadArrayLenTooLong = errors.New("bad array len, too long")
+	// ErrBadArrayDepthTooDeep too deep nested array
+	ErrBadArrayDepthTooDeep = errors.New("bad array depth, too deep")
 
 	// ErrBadBulkStringLen for invalid bulk string len
 	ErrBadBulkStringLen = errors.New("bad bulk string len")
@@ -61,6 +66,8 @@ var CRLF = []byte{CR, LF}
 type decoder struct {
 	br  *Reader
 	err error
+	// depth is the nesting level of the array being decoded.
+	depth int
 }
 
 func newDecoder(r io.Reader, bufSize int) *decoder {
@@ -231,6 +238,12 @@ func (d *decoder) decodeArray() ([]RespValue, error) {
 	case n == -1:
 		return nil, nil
 	}
+	// the decoding is recursive, bound the nesting chosen by the peer.
+	if d.depth >= maxArrayDepth {
+		return nil, ErrBadArrayDepthTooDeep
+	}
+	d.depth++
+	defer func() { d.depth-- }()
 	array := make([]RespValue, n)
 	for i := range array {
 		r, err := d.decode()
